@@ -171,6 +171,28 @@ def forward_dir(cell, seed):
             want = (gc @ A).reshape(2, 3, *sp)
             okc, d, ratio = util.compare('x.grad vs A^T g', g[0], want, tol * float(np.abs(gc).max()) * 4)
             out.append(res(HELD, case, 'M-JAC', ratio=ratio) if okc else res(VIOLATED, case, 'M-JAC', d, ratio=ratio))
+            # outputs scaled IN PLACE by the caller before back-propagating
+            case3 = {'cell': cell, 'check': 'outputs modified in place before backward'}
+            x3 = x.detach().clone().requires_grad_(True)
+            ok3, y3 = util.call_lib(mod, x3)
+            if ok3:
+                ob3 = collect(y3, o, r)
+                ok_edit, e3 = util.call_lib(lambda: [t.mul_(0.5) for t, b in ob3])
+                g3 = e3
+                if not ok_edit:
+                    # torch itself refuses in-place edits of outputs that are views returned by a multi-output
+                    # Function (a clear error for the caller, no wrong gradient): outside the property
+                    out.append(res(core.SKIPPED, case3, 'M-JAC', 'torch refuses the in-place edit of a view output'))
+                    ok3 = None
+                else:
+                    ok3, g3 = util.call_lib(torch.autograd.grad, [t for t, b in ob3], x3, cots)
+                if ok3 is None:
+                    pass
+                elif not ok3:
+                    out.append(res(VIOLATED, case3, 'M-JAC', 'in-place edit of the outputs, or the backward after it, raised %r' % (g3,)))
+                else:
+                    okc, d, ratio = util.compare('x.grad vs 0.5 * A^T g', g3[0], 0.5 * want, tol * float(np.abs(gc).max()) * 4)
+                    out.append(res(HELD, case3, 'M-JAC', ratio=ratio) if okc else res(VIOLATED, case3, 'M-JAC', d, ratio=ratio))
             # a second cotangent, of magnitude 1e-10, pulled back through the same recorded graph
             case2 = {'cell': cell, 'check': 'second pull-back, tiny cotangent'}
             cots2 = [1e-10 * util.make_input('randn', list(t.shape), seed + 60 + i) for i, (t, b) in enumerate(ob)]
